@@ -192,6 +192,21 @@ def zoo_build(pp, seed):
     return e, "".join(desc)
 
 
+def cdt_spread(pp, expr):
+    """region of the registered finding `call_during_try_spreads`: an element that carries call_during_try (set for the
+    whole element by match_previous_literal/_expr's own action) together with further parse actions"""
+    seen, todo = set(), [expr]
+    while todo:
+        e = todo.pop()
+        if id(e) in seen:
+            continue
+        seen.add(id(e))
+        if e.callDuringTry and len(e.parseAction) >= 2:
+            return True
+        todo.extend(corr_parse._children(pp, e))
+    return False
+
+
 def zoo_job(seed):
     pp = common.import_pyparsing()
     import warnings
@@ -204,7 +219,7 @@ def zoo_job(seed):
     except Exception:
         return 0, [], 0, None  # the constructor refused the arguments
     try:
-        if corr_parse.nullable_rep(pp, expr):
+        if corr_parse.nullable_rep(pp, expr) or cdt_spread(pp, expr):
             return 0, [], 0, None
     except Exception:
         return 0, [], 0, None
@@ -275,7 +290,18 @@ def known_witnesses(ctx, pp):
             ctx.fail_input("exception location outside the parsed string", {"program": "GoToColumn(3) + NoMatch()", "input": "\n"},
                            "loc <= len+1", f"loc {ex.loc}, len {len(ex.pstr)}", theorem="C06 statement (oracle)",
                            signature="gotocolumn_advances_past_end")
-    ctx.count_cases("known-finding-witnesses", 2)
+    # match_previous_literal/_expr switch call_during_try on for ALL actions of the expression they are given
+    f = pp.pyparsing_common.mixed_integer.copy()
+    pp.match_previous_literal(f)
+    try:
+        pp.SkipTo(f).parse_string("x 1")
+    except pp.ParseBaseException:
+        pass
+    except TypeError as ex:
+        ctx.fail_input("TypeError escapes parse_string", {"program": "f = pyparsing_common.mixed_integer.copy(); match_previous_literal(f); SkipTo(f)",
+                       "input": "x 1"}, "no TypeError", f"TypeError: {ex}", theorem="C06 statement (oracle)",
+                       signature="call_during_try_spreads")
+    ctx.count_cases("known-finding-witnesses", 3)
 
 
 def run(ctx):
